@@ -15,6 +15,7 @@ import (
 var Trace func(kind vsched.Kind, addr unsafe.Pointer, val uint64, ok bool)
 
 func tr(kind vsched.Kind, addr unsafe.Pointer, val uint64, ok bool) {
+	vsched.After(ok)
 	if Trace != nil && vsched.Active() {
 		Trace(kind, addr, val, ok)
 	}
